@@ -3947,6 +3947,11 @@ skip_hardware_clock:
     if (rc == TPM_RC_SUCCESS) {
        rc = UINT32_Unmarshal(&s_adjustRate, buffer, size);
     }
+    if (rc == TPM_RC_SUCCESS && s_adjustRate == 0) {
+        /* _plat__TimerRead() divides by the rate */
+        TPMLIB_LogTPM2Error("Volatile state: s_adjustRate must not be %u\n", 0);
+        rc = TPM_RC_BAD_PARAMETER;
+    }
     if (rc == TPM_RC_SUCCESS) {
         rc = UINT64_Unmarshal(&backthen, buffer, size);
     }
